@@ -125,9 +125,23 @@ def unit_expr(ux):
     return out
 
 
+_SHARED_REGISTRY = {}
+
+
 def registry(reg):
     """registry of the spec -> dict of base units; an entry with a number factor other than 1 is the scaled
-    quantity factor * unit (as a user writes 0.1*metre, or as unit_registry_from_human_readable returns it)"""
+    quantity factor * unit (as a user writes 0.1*metre, or as unit_registry_from_human_readable returns it).
+
+    Object history: within one process it is always THE SAME dict object, edited in place from one use to the
+    next (as a user who keeps one registry and changes an entry does) - an answer may depend on the content of the
+    registry only, never on the identity of the dict or on what it held before."""
+    fresh = _registry_content(reg)
+    _SHARED_REGISTRY.clear()
+    _SHARED_REGISTRY.update(fresh)
+    return _SHARED_REGISTRY
+
+
+def _registry_content(reg):
     u = U()
     fac = reg.get("factors") or {}
     gv = gen_values({})
